@@ -326,7 +326,8 @@ def rule_rejection(fm, rep, rid='R5'):
         if len(rts) == 1:
             r = dict(list(rts)[0][3]).get(names(cad).mb_repr) if list(rts)[0][0] == 'adt' else None
             r = norm(r) if r is not None else None
-            ok = r is not None and r[0] == 'adt' and r[2] == names(cad).v_error and dict(r[3])['0'] == ('param', 1) and peel(dict(r[3])['1']) == ('param', 2)
+            ok = r is not None and r[0] == 'adt' and r[2] == names(cad).v_error and dict(r[3]).get('0') == ('param', 1) and \
+                ('1' not in dict(r[3]) or peel(dict(r[3])['1']) == ('param', 2))
         rep.ob(rid, 'from_error-stores-error-state', ok, fe[0].where(), 'from_error(e, c) = builder in state Error(e, c)')
     else:
         rep.anchor_lost(rid, 'MetricBuilder::from_error')
